@@ -4,9 +4,11 @@ value, or sits inside such a value).  Together with `render_safe` (no document c
 "input text appears only as escaped character data or inside properly quoted attribute values": the delimiters
 all come from template literals, and they pair up.
 
-One hypothesis is explicit and TESTED, not proved: `StripAgrees` — on well-tagged strings the regenerated
+One hypothesis is explicit here: `StripAgrees` — on well-tagged strings the regenerated
 `_striptags_re` removes exactly what the scanner calls tags (the image template puts the tag-stripped rendering of
-its children into the `alt` attribute).
+its children into the `alt` attribute).  It was first only TESTED; it is now PROVED in `MistuneProofs/C02Strip.lean`
+(`stripAgrees_generated`), which also holds the hypothesis-free corollaries (`render_tagged_closed`, …; they cannot
+stand here: C02Strip imports this file for the definition of `StripAgrees`).
 
 FOUND WHILE PROVING: the tree theorem `renderTok_tagged` is FALSE for an arbitrary `TagTable` as first stated (four
 kernel-checked counterexamples in the section "counterexamples" below); it holds, and is proved here, with two more
